@@ -11,8 +11,12 @@ package guardiand
 import (
 	"bytes"
 	"context"
+	"encoding/base64"
 	"encoding/hex"
+	"encoding/json"
 	"fmt"
+	"io"
+	"net/http"
 	"os"
 	"path/filepath"
 	"sort"
@@ -22,6 +26,7 @@ import (
 
 	"github.com/alephium/wormhole-fork/node/pkg/common"
 	"github.com/alephium/wormhole-fork/node/pkg/db"
+	gossipv1 "github.com/alephium/wormhole-fork/node/pkg/proto/gossip/v1"
 	nodev1 "github.com/alephium/wormhole-fork/node/pkg/proto/node/v1"
 	publicrpcv1 "github.com/alephium/wormhole-fork/node/pkg/proto/publicrpc/v1"
 	"github.com/alephium/wormhole-fork/node/pkg/publicrpc"
@@ -95,7 +100,34 @@ type dbWorld struct {
 	model                                 map[string][]byte
 	ids                                   map[string]dbID
 	step                                  int
+	seed                                  uint64
+	bfCalls                               int
+	bfAnswers                             map[string]int
 	gets, gaps, batches, hits, overwrites int
+}
+
+// RoundTrip plays the public RPC of the backfill nodes the admin command asks for missing VAAs:
+// per requested identifier it answers 404 (does not have it), 200 (has it) or 503 (overloaded),
+// decided by a hash of seed and path (order-independent).
+func (w *dbWorld) RoundTrip(req *http.Request) (*http.Response, error) {
+	mk := func(code int, body []byte) *http.Response {
+		return &http.Response{StatusCode: code, Status: fmt.Sprint(code), Proto: "HTTP/1.1", ProtoMajor: 1, ProtoMinor: 1, Header: http.Header{},
+			Body: io.NopCloser(bytes.NewReader(body)), ContentLength: int64(len(body)), Request: req}
+	}
+	w.bfCalls++
+	switch h := simkit.Hash64(w.seed, "backfill", req.URL.Path) % 20; {
+	case h < 11:
+		w.bfAnswers[req.URL.Path] = 404
+		return mk(404, []byte(`{"code":5,"message":"requested VAA not found in store"}`)), nil
+	case h < 16:
+		w.bfAnswers[req.URL.Path] = 200
+		b, _ := json.Marshal(map[string]string{"vaaBytes": base64.StdEncoding.EncodeToString([]byte("backfilled " + req.URL.Path))})
+		return mk(200, b), nil
+	default:
+		w.bfAnswers[req.URL.Path] = 503
+		w.stats.Fault("backfill-node-503")
+		return mk(503, []byte("service unavailable")), nil
+	}
 }
 
 func (w *dbWorld) violate(key, format string, a ...interface{}) {
@@ -114,7 +146,8 @@ func (w *dbWorld) open() error {
 	}
 	w.d = d
 	w.rpc = publicrpc.NewPublicrpcServer(zap.NewNop(), d, common.NewGuardianSetState(nil), vaa.ChainID(dbGovCh), dbGovAddr)
-	w.adm = &nodePrivilegedService{db: d, logger: zap.NewNop(), governanceChainId: vaa.ChainID(dbGovCh), governanceEmitterAddress: dbGovAddr}
+	w.adm = &nodePrivilegedService{db: d, logger: zap.NewNop(), governanceChainId: vaa.ChainID(dbGovCh), governanceEmitterAddress: dbGovAddr,
+		signedInC: make(chan *gossipv1.SignedVAAWithQuorum, 4096)}
 	return nil
 }
 
@@ -271,6 +304,49 @@ func (w *dbWorld) run(p *simkit.Program) {
 			}
 			w.checkGap(id, m2, resp.FirstSequence, resp.LastSequence, "admin-rpc")
 			w.log.Add("gap %s -> %v first=%d last=%d", id.stream(), missing, first, last)
+		case "gapbf":
+			if id.ai == 3 {
+				break
+			}
+			// the same gap query, with backfill from a (simulated) public RPC node switched on
+			w.bfAnswers = map[string]int{}
+			resp, err := w.adm.FindMissingMessages(ctx, &nodev1.FindMissingMessagesRequest{EmitterChain: uint32(id.ec), EmitterAddress: hex.EncodeToString(id.addr[:]),
+				TargetChain: uint32(id.tc), RpcBackfill: true, BackfillNodes: []string{"http://backfill.sim"}})
+			w.stats.Fault("gap-query-with-backfill")
+			if err != nil {
+				// failing the whole request is an honest answer when a backfill node misbehaves
+				has503 := false
+				for _, c := range w.bfAnswers {
+					has503 = has503 || c == 503
+				}
+				if !has503 {
+					w.violate("gap-query-error", "FindMissingMessages with backfill (%s): %v", id.stream(), err)
+				}
+				w.log.Add("gapbf %s -> error", id.stream())
+				break
+			}
+			P := w.streamSeqs(id.stream())
+			if len(P) > 0 {
+				present := map[uint64]bool{}
+				for _, q := range P {
+					present[q] = true
+				}
+				reported := map[uint64]bool{}
+				pre := fmt.Sprintf("%d/%x/%d/", id.ec, id.addr[:], id.tc)
+				for _, m := range resp.MissingMessages {
+					var q uint64
+					fmt.Sscanf(strings.TrimPrefix(m, pre), "%d", &q)
+					reported[q] = true
+				}
+				for q := P[0]; q <= P[len(P)-1]; q++ {
+					path := fmt.Sprintf("/v1/signed_vaa/%d/%x/%d/%d", id.ec, id.addr[:], id.tc, q)
+					if !present[q] && !reported[q] && w.bfAnswers[path] != 200 {
+						w.violate("gap-silently-dropped-from-report", "stream %s holds %v; sequence %d is missing, the backfill node answered %d for it, yet it is not in the missing-messages report %v",
+							id.stream(), P, q, w.bfAnswers[path], resp.MissingMessages)
+					}
+				}
+			}
+			w.log.Add("gapbf %s -> %d missing", id.stream(), len(resp.MissingMessages))
 		case "batch":
 			w.batches++
 			var seqs []uint64
@@ -411,7 +487,11 @@ func (dbHarness) Gen(seed uint64, prop, tier string) *simkit.Program {
 		case 1:
 			add("get", packID(s.ci, s.ai, s.ti, r.Intn(14)), 0, 0)
 		case 2:
-			add("gap", packID(s.ci, s.ai, s.ti, 0), 0, 0)
+			if r.P(0.3) {
+				add("gapbf", packID(s.ci, s.ai, s.ti, 0), 0, 0)
+			} else {
+				add("gap", packID(s.ci, s.ai, s.ti, 0), 0, 0)
+			}
 		case 3:
 			add("batch", packID(s.ci, s.ai, s.ti, 0), int64(r.Intn(1<<13)), 0)
 		case 4:
@@ -438,6 +518,10 @@ func (dbHarness) Exec(p *simkit.Program) *simkit.Result {
 		dir: filepath.Join(scratch, fmt.Sprintf("dbsim-%d-%d", os.Getpid(), p.Seed))}
 	os.RemoveAll(w.dir)
 	defer os.RemoveAll(w.dir)
+	w.seed, w.bfAnswers = p.Seed, map[string]int{}
+	oldT := http.DefaultTransport
+	http.DefaultTransport = w
+	defer func() { http.DefaultTransport = oldT }()
 	if err := w.open(); err != nil {
 		res.HarnessErr = err.Error()
 		return res
